@@ -317,7 +317,9 @@ class Program:
         self.gen = Gen(rng, self.world)
         r = rng.random()
         self.n_prefix = rng.randint(0, 3) if r < 0.6 else rng.randint(2, 8) if r < 0.92 else rng.randint(6, 12)
-        self.fault_kind = rng.choice(FAULT_KINDS)
+        # quick tier: an interrupted program costs ten re-executions, a rejected one costs one - two thirds of the
+        # programs end in an aimed rejection; the thorough tier (which enumerates every line) keeps the even mix
+        self.fault_kind = rng.choice(FAULT_KINDS if tier == "thorough" else FAULT_KINDS[:4] * 2 + FAULT_KINDS[4:6] + FAULT_KINDS[7:] * 2)
         self.exc_kind = rng.choice(["interrupt", "interrupt", "error"])
 
     def liquid_op(self, sess, intent):
@@ -385,14 +387,50 @@ class Program:
             op["vform"] = rng.choice(["tuple", "ndarray"])
         return op
 
+    def followup(self, prev, view):
+        """an invalid call was let through silently: the script goes for the very wells it named with a volume no
+        well can afford (aspirate) resp. hold (dispense) - whatever the let-through call did to the bookkeeping of
+        those wells, this step must be refused."""
+        from ..sim.geom import enc, flatten_f
+        rng, g = self.rng, self.gen
+        if prev["op"] == "transfer":
+            li, wells = prev["src"], prev["sw"]
+        elif prev["op"] in ("aspirate", "dispense"):
+            li, wells = prev["lab"], prev["wells"]
+        else:
+            return None
+        geo = g.geos[li]
+        try:
+            real = [geo.real(w) for w in flatten_f(wells)]
+        except KeyError:
+            return None
+        cur = g.vols(view, li)
+        cap = float(int(g.wl_max)) if g.wl_max >= 1 else g.wl_max
+        if rng.random() < 0.5:
+            v = max(cur[w] for w in real) - geo.vmin + 1.0
+            kind = "aspirate"
+        else:
+            v = geo.vmax - min(cur[w] for w in real) + 1.0
+            kind = "dispense"
+        if not 0 < v <= cap:
+            return None
+        return {"op": kind, "lab": li, "wells": wells, "volumes": enc(float(v)), "label": None, "comps": None,
+                "intent": "reject." + ("underflow" if kind == "aspirate" else "overflow") + "@followup"}
+
     def source(self, i, sess):
         rng = self.rng
+        prev, self.pending_invalid = getattr(self, "pending_invalid", None), None
+        if prev is not None and sess.sess.events and sess.sess.events[-1][2] == "ok":
+            op = self.followup(prev, sess)
+            if op is not None:
+                return op, True
         if i < self.n_prefix:
             r = rng.random()
             if r < 0.04:
                 # an invalid call in the middle: on a correct library it raises and thereby becomes the terminal
                 # fault; a library that lets it through silently carries on with whatever state it left
-                return self.gen.gen_invalid(sess), False
+                self.pending_invalid = self.gen.gen_invalid(sess)
+                return self.pending_invalid, False
             if r < 0.2:
                 return self.gen.gen_misc(), False
             if r < 0.24:
